@@ -352,28 +352,42 @@ Times are integer nanoseconds of the injected clock; `q` is a question id. -/
 def stepFail (st : State) (w : List String) : State × String :=
   let c := st.fc
   let hit (e : Nat × Nat) : String := s!"streak={e.1} retry={e.2}"
+  -- name i is nested below name i-1: the question state of name i has table key 2i+1, its
+  -- zone state 2i+2; the ancestor zones of name i are the zones i, i-1, …, 0 (closest first)
+  let qk (i : Nat) : Nat := 2 * i + 1
+  let zk (i : Nat) : Nat := 2 * i + 2
+  let anc (i : Nat) : List Nat := (List.range (i + 1)).reverse.map zk
   match w with
   | ["new", size, ini, mx] =>
     match size.toNat?, ini.toNat?, mx.toNat? with
     | some s, some i, some m => ({ st with fc := Cache.new s, fcInit := i, fcMax := m }, "ok")
     | _, _, _ => (st, "bad-op")
-  | ["record", q, now] =>
+  | [op, q, now] =>
     match q.toNat?, now.toNat? with
     | some q, some now =>
-      let r := c.failRecord H st.fcInit st.fcMax now (q + 1) 4
-      ({ st with fc := r.1 }, s!"{hit r.2} len={r.1.len}")
+      if op == "record" || op == "zrecord" then
+        let r := c.failRecord H st.fcInit st.fcMax now (if op == "record" then qk q else zk q) 4
+        ({ st with fc := r.1 }, s!"{hit r.2} len={r.1.len}")
+      else if op == "lookup" then
+        match c.failLookupZ H now (qk q) (anc q) with
+        | some e => (st, hit e)
+        | none => (st, "-")
+      else (st, "bad-op")
     | _, _ => (st, "bad-op")
-  | ["reset", q] =>
+  | [op, q] =>
     match q.toNat? with
-    | some q => let r := c.failReset H (q + 1) 4; ({ st with fc := r.1 }, s!"{boolStr r.2} len={r.1.len}")
+    | some q =>
+      if op == "reset" || op == "zreset" then
+        let r := c.failReset H (if op == "reset" then qk q else zk q) 4
+        ({ st with fc := r.1 }, s!"{boolStr r.2} len={r.1.len}")
+      else if op == "rmatch" then
+        -- ResetMatching: the exact question, then every ancestor zone
+        let r := c.failResetAll H (qk q :: anc q); ({ st with fc := r.1 }, s!"removed={r.2} len={r.1.len}")
+      else if op == "purge" then
+        -- PurgeQuestion: the question's state and the zone state owned by the same name
+        let r := c.failResetAll H [qk q, zk q]; ({ st with fc := r.1 }, s!"removed={r.2} len={r.1.len}")
+      else (st, "bad-op")
     | none => (st, "bad-op")
-  | ["lookup", q, now] =>
-    match q.toNat?, now.toNat? with
-    | some q, some now =>
-      match c.failLookup H now (q + 1) with
-      | some e => (st, hit e)
-      | none => (st, "-")
-    | _, _ => (st, "bad-op")
   | ["len"] => (st, toString c.len)
   | _ => (st, "bad-op")
 
